@@ -257,12 +257,25 @@ pub fn gen_plan(rng: &mut Rng, w: &Workload) -> (Plan, Swarm) {
             },
             pid: rng.range(1, 4_000_000) as i64,
             env,
+            argv: if rng.chance(450) { rng.pick(&ARGVS).iter().map(|s| s.to_string()).collect() } else { vec![] },
             jobs: ejobs,
             decisions,
         });
     }
     (Plan { programs, epochs }, swarm)
 }
+
+/// command lines a compiler session may have been started with (appended to the epoch process's)
+const ARGVS: [&[&str]; 8] = [
+    &["--test"],
+    &["--edition=2021", "--crate-type", "lib"],
+    &["--cfg", "test"],
+    &["-C", "opt-level=3", "-C", "debug-assertions=off"],
+    &["--crate-name", "foo", "--test", "-C", "debuginfo=2"],
+    &["--crate-type", "proc-macro", "--cfg", "feature=\"unimock\""],
+    &["--cap-lints", "allow", "-C", "incremental=/tmp/inc"],
+    &["check", "--release"],
+];
 
 fn gen_decision(rng: &mut Rng, s: &Swarm, w: &Workload) -> Decision {
     let r = rng.below(1000);
@@ -333,7 +346,8 @@ impl References {
             }
         }
         let plan_a = Plan::solo(p, 0x0123_4567_89ab_cdef ^ key, 1_790_000_000);
-        let plan_b = Plan::solo(p, 0xfedc_ba98_7654_3210 ^ key.rotate_left(13), 17);
+        let mut plan_b = Plan::solo(p, 0xfedc_ba98_7654_3210 ^ key.rotate_left(13), 17);
+        plan_b.epochs[0].argv = ["--test", "--crate-name", "ref_b", "--edition=2021", "--cfg", "test", "-C", "opt-level=3"].iter().map(|s| s.to_string()).collect();
         // the second solo session runs the macro as built WITH debug assertions (and overflow
         // checks) when that flavour of the simulator exists: what `cargo build` vs
         // `cargo build --release` of a consumer means for a proc-macro
@@ -616,6 +630,9 @@ impl Stats {
             }
             if !epoch.env.is_empty() {
                 *self.faults_fired.entry("env_initial".into()).or_default() += epoch.env.len() as u64;
+                if !epoch.argv.is_empty() {
+                    *self.faults_fired.entry("argv_extra".into()).or_default() += 1;
+                }
                 any_fault = true;
             }
         }
